@@ -299,3 +299,97 @@ def c04_extra():
     es6 = [dict(e_, tpl="eop") if i % 2 == 0 else e_ for i, e_ in enumerate(es4)]
     out.append(("V6-edge-template-mixed-with-plain", dict(edge_template=True), model([a, b], nodes4, es6, edge_ops=[eop])))
     return out
+
+
+def c06_families():
+    """Circuits whose nodes all differ in a parameter (so any swapped column is visible)."""
+    out = []
+    a = op_li("opA", x="x", ins=("i1",), tau=1.0, x0=0.5, in_defaults={"i1": 0.3})
+    c = op_alg("opC", out="i1", src="z", fn="tanh", k=0.5, c=0.1, src_default=0.2)
+    b = op_li("opB", x="v", ins=("u",), tau=2.0, x0=-0.3, in_defaults={"u": 0.1})
+    labels = ["n1", "m1", "n2", "m2"]
+    for pi_, perm in enumerate(itertools.permutations(range(4))):
+        if pi_ % 5 != 0:
+            continue
+        nodes = {}
+        for j in perm:
+            lab = labels[j]
+            if lab.startswith("n"):
+                nodes[lab] = dict(ops=["opA"], over={"opA/tau": 1.0 + j})
+            else:
+                nodes[lab] = dict(ops=["opA", "opC"], over={"opA/tau": 1.5 + j})
+        es = [edge("n1/opA/x", "m1/opC/z", 0.7), edge("m2/opA/x", "n2/opA/i1", -0.4)]
+        out.append((f"O1-two-node-types-perm{pi_}", dict(perm=list(perm)), model([a, c], nodes, es)))
+    nodes3 = {"pc": dict(ops=["opB"], over={"opB/tau": 1.0}), "ein": dict(ops=["opB"], over={"opB/tau": 2.0}),
+              "iin": dict(ops=["opB"], over={"opB/tau": 3.0})}
+    es3 = [edge("pc/opB/v", "ein/opB/u", 1.0), edge("ein/opB/v", "iin/opB/u", 0.5), edge("iin/opB/v", "pc/opB/u", -1.0)]
+    out.append(("O2-jrc-like-nonalphabetic", dict(), model([b], nodes3, es3)))
+    inner1 = model([b], {"p1": dict(ops=["opB"], over={"opB/tau": 1.0}), "p2": dict(ops=["opB"], over={"opB/tau": 2.0})},
+                   [edge("p1/opB/v", "p2/opB/u", 1.0)])
+    inner2 = model([b], {"p1": dict(ops=["opB"], over={"opB/tau": 3.0}), "p2": dict(ops=["opB"], over={"opB/tau": 4.0})},
+                   [edge("p2/opB/v", "p1/opB/u", -1.0)])
+    out.append(("O3-hierarchy", dict(hierarchy=1),
+                dict(ops={}, nodes={}, edges=[edge("c1/p2/opB/v", "c2/p1/opB/u", 0.8)], circuits={"c1": inner1, "c2": inner2})))
+    return out
+
+
+def c06_requests(tag, m):
+    """(form, request) pairs for a C06 model."""
+    from .mdl import flatten
+    nodes, _ = flatten(m)
+    reqs = []
+    paths = []
+    for npath, (node, ops) in nodes.items():
+        for o in node["ops"]:
+            for l, k, _ in ops[o]["eqs"]:
+                if k == "de":
+                    paths.append(f"{npath}/{o}/{l}")
+    depth = len(next(iter(nodes)).split("/"))
+    o0 = paths[0].split("/")[-2:]
+    wild = "/".join(["all"] * depth + o0)
+    reqs.append(("dict", {f"k{i}": p for i, p in enumerate(paths)}))
+    reqs.append(("dict", {"w": wild}))
+    reqs.append(("dict", {"zz": wild, "aa": paths[-1]}))
+    reqs.append(("list", [paths[-1]]))
+    reqs.append(("list", [paths[1], paths[0]]))
+    reqs.append(("list", [wild]))
+    if depth > 1:
+        first = next(iter(nodes)).split("/")[0]
+        reqs.append(("dict", {"sub": "/".join([first] + ["all"] * (depth - 1) + o0)}))
+        reqs.append(("dict", {"lvl": "/".join(["all"] + next(iter(nodes)).split("/")[1:] + o0)}))
+    return reqs
+
+
+def c07_cases():
+    """(tag, features, model, ops): circuits in which NodeTemplate / OperatorTemplate objects are shared between nodes."""
+    out = []
+    a = op_li("opA", x="x", ins=("i1",), tau=1.0, x0=0.8, in_defaults={"i1": 0.3}, extra=["*", V("k"), V("x")])
+    a["vars"]["k"] = ["const", 2.0]
+    nodes = {"A": dict(ops=["opA"]), "A2": dict(ops=["opA"]), "A3": dict(ops=["opA"])}          # ONE shared NodeTemplate
+    es = [edge("A/opA/x", "A2/opA/i1", 0.5), edge("A2/opA/x", "A3/opA/i1", -0.25), edge("A3/opA/x", "A/opA/i1", 1.5)]
+    m = model([a], nodes, es)
+    out.append(("U1-single-node-const", dict(), m, [["update_var", "A2/opA/k", 5.0]]))
+    out.append(("U2-first-node-const", dict(), m, [["update_var", "A/opA/k", 1.0]]))
+    out.append(("U3-initial-value", dict(), m, [["update_var", "A3/opA/x", 0.5]]))
+    out.append(("U4-array-over-all", dict(), m, [["update_var", "all/opA/k", [2.0, 3.0, 4.0]]]))
+    out.append(("U5-array-initial-values", dict(), m, [["update_var", "all/opA/x", [0.1, 0.2, 0.3]]]))
+    out.append(("U6-two-calls-same-var", dict(), m, [["update_var", "A2/opA/k", 5.0], ["update_var", "A2/opA/k", 7.0]]))
+    out.append(("U7-then-other-node", dict(), m, [["update_var", "A/opA/k", 1.5], ["update_var", "A3/opA/tau", 4.0], ["update_var", "A/opA/x", -0.2]]))
+    out.append(("U8-edge-weight", dict(), m, [["edge", "A2/opA/x", "A3/opA/i1", 3.0]]))
+    out.append(("U9-update-then-node-values", dict(), m, [["update_var", "A2/opA/k", 5.0], ["update_var", "A/opA/k", 1.0], ["update_var", "A3/opA/k", 6.0],
+                                                          ["node_values", "A2/opA/k", 9.0]]))
+    out.append(("U10-node-values-shared-template", dict(node_values_shared=True), m, [["node_values", "A/opA/tau", 5.0]]))
+    # two templates interleaved T1,T2,T1,T2 and a per-node array
+    b = op_li("opB", x="v", ins=("u",), tau=2.0, x0=-0.3, in_defaults={"u": 0.1}, extra=["*", V("k"), V("v")])
+    b["vars"]["k"] = ["const", -1.0]
+    c_ = op_alg("opC", out="u", src="z", fn="tanh", k=0.5, c=0.1, src_default=0.2)
+    nodes2 = {"n1": dict(ops=["opB"]), "m1": dict(ops=["opB", "opC"]), "n2": dict(ops=["opB"]), "m2": dict(ops=["opB", "opC"])}
+    m2 = model([b, c_], nodes2, [edge("n1/opB/v", "m1/opC/z", 0.7), edge("m2/opB/v", "n2/opB/u", -0.4)])
+    out.append(("U11-interleaved-templates-array", dict(), m2, [["update_var", "all/opB/k", [1.0, 2.0, 3.0, 4.0]]]))
+    out.append(("U12-interleaved-initial-values", dict(), m2, [["update_var", "all/opB/v", [0.1, 0.2, 0.3, 0.4]]]))
+    # hierarchy whose sub-circuits reuse the same templates
+    inner = model([b], {"p1": dict(ops=["opB"]), "p2": dict(ops=["opB"])}, [edge("p1/opB/v", "p2/opB/u", 1.0)])
+    hm = dict(ops={}, nodes={}, edges=[edge("c1/p2/opB/v", "c2/p1/opB/u", 0.8)], circuits={"c1": inner, "c2": inner})
+    out.append(("U13-hierarchy-single", dict(hierarchy=1), hm, [["update_var", "c2/p1/opB/k", 3.0]]))
+    out.append(("U14-hierarchy-array", dict(hierarchy=1), hm, [["update_var", "all/all/opB/k", [1.0, 2.0, 3.0, 4.0]]]))
+    return out
